@@ -208,9 +208,59 @@ STEP_CORPUS = [
      "script": [{"t": "req", "n": 2}, {"t": "complete"}, {"t": "req", "n": 1}]},
     {"kind": "sink", "ops": [], "init": 4, "refill": 1,
      "script": [{"t": "elem", "v": 1}, {"t": "elem", "v": 2}, {"t": "elem", "v": 3}, {"t": "elem", "v": 4}, {"t": "error", "e": 5}, {"t": "complete"}]},
+    # ordered parallel stage, workers finishing in the order 3,1,2: the heap must hold 3 back
+    {"kind": "par", "ops": [], "init": 224, "refill": 64, "ordered": True, "w": 3, "a": 2, "b": 1,
+     "script": [{"t": "elem", "v": 10}, {"t": "elem", "v": 20}, {"t": "elem", "v": 30}, {"t": "worker", "seq": 3, "v": 30},
+                {"t": "worker", "seq": 1, "v": 10}, {"t": "complete"}, {"t": "worker", "seq": 2, "v": 20}]},
     {"kind": "source", "ops": [], "input": [1, 2, 3, 4, 5], "init": 4, "refill": 1,
      "script": [{"t": "req", "n": 2}, {"t": "req", "n": 2}, {"t": "req", "n": 2}, {"t": "req", "n": 2}]},
 ]
+
+
+def gen_par_case(rng):
+    """parallel stage: the harness gates every worker, so the order in which tasks finish is scripted"""
+    w = rng.choice([1, 2, 3, 4])
+    c = {"kind": "par", "ops": [], "init": 224, "refill": 64, "ordered": rng.random() < 0.6, "w": w,
+         "a": rng.choice([1, 2, -1]), "b": rng.randint(-2, 2)}
+    script, inflight, inseq, updone, alive, nextv = [], [], 0, False, True, 1
+    for _ in range(rng.randint(4, 30)):
+        r = rng.random()
+        ready = [s for (s, v) in inflight if s == min(s2 for (s2, _v) in inflight if (s2 - 1) % w == (s - 1) % w)]
+        if ready and (r < 0.45 or updone):
+            sq = rng.choice(ready)
+            v = dict(inflight)[sq]
+            inflight = [(s2, v2) for (s2, v2) in inflight if s2 != sq]
+            script.append({"t": "worker", "seq": sq, "v": v})
+            if alive and updone and not inflight:
+                alive = False
+        elif r < 0.8 and not updone:
+            if rng.random() < 0.03:
+                script.append({"t": "elem", "v": [1, 2]})
+                alive = False
+            else:
+                script.append({"t": "elem", "v": nextv})
+                if alive:
+                    inseq += 1
+                    inflight.append((inseq, nextv))
+                nextv += rng.choice([1, 2, 3])
+        elif r < 0.86:
+            script.append({"t": "req", "n": rng.choice([1, 5, 224])})
+        elif r < 0.94:
+            script.append({"t": "complete"})
+            if alive and not updone:
+                updone = True
+                if not inflight:
+                    alive = False
+        elif r < 0.97:
+            script.append({"t": "error", "e": rng.randint(500, 599)})
+            alive = False
+        else:
+            script.append({"t": "cancel"})
+            alive = False
+        if not alive:
+            inflight = []
+    c["script"] = script
+    return c
 
 
 def gen_step_cases(ctx):
@@ -218,7 +268,10 @@ def gen_step_cases(ctx):
     n = 1200 if ctx.thorough else 240
     cases = [dict(c) for c in STEP_CORPUS]
     while len(cases) < n:
-        kind = rng.choice(["flow"] * 5 + ["fused"] * 2 + ["batch"] * 3 + ["sink", "source"])
+        kind = rng.choice(["flow"] * 5 + ["fused"] * 2 + ["batch"] * 3 + ["sink", "source"] + ["par"] * 3)
+        if kind == "par":
+            cases.append(gen_par_case(rng))
+            continue
         init = rng.choice([1, 2, 3, 4, 4, 8, 224])
         refill = 64 if init == 224 else rng.randint(0, init)
         c = {"kind": kind, "ops": [], "init": init, "refill": refill}
@@ -273,6 +326,8 @@ def coq_inmsg(m):
         return "FromUp DComplete"
     if t == "error":
         return "FromUp (DError %s)" % su.zl(m["e"])
+    if t == "worker":
+        return "WorkerDone %s" % su.zl(m["seq"])
     raise ValueError(t)
 
 
@@ -284,6 +339,8 @@ def coq_kind(c, orig=False):
         return "KFused %s %s" % (su.coq_ops(c["ops"]), cfg)
     if c["kind"] == "batch":
         return "%s %d%%nat %s" % ("KBatch0" if orig else "KBatch", c["ops"][0]["n"], cfg)
+    if c["kind"] == "par":
+        return "KPar %s %d%%nat %s %s" % ("true" if c["ordered"] else "false", c["w"], su.zl(c["a"]), su.zl(c["b"]))
     raise ValueError(c["kind"])
 
 
@@ -315,6 +372,39 @@ def step_model_term(c, orig=False):
 def step_oracle(c, r):
     """independent of the model: conservation and emission within demand on a step run of one stage.
        returns a reason or None"""
+    if c["kind"] == "par":
+        consumed, emitted, completed, alive = [], [], False, True
+        for m, s in zip(c["script"], r.get("steps") or []):
+            if not alive or s.get("state") is None:
+                break
+            if m["t"] == "elem":
+                if isinstance(m["v"], list):
+                    return None
+                consumed.append(m["v"])
+            elif m["t"] in ("error", "cancel"):
+                return None
+            out = list(s.get("out") or [])
+            i = 0
+            while i < len(out):
+                if out[i] == 10 and out[i + 1] == 1:
+                    emitted.append(out[i + 2])
+                    i += 3
+                elif out[i] == 11:
+                    completed = True
+                    i += 1
+                elif out[i] == 20:
+                    i += 2
+                else:
+                    i += 1
+            alive = s["alive"]
+        want = [c["a"] * x + c["b"] for x in consumed]
+        if c["ordered"] and emitted != want[:len(emitted)]:
+            return "ordered parallel stage emitted %s, input order gives %s" % (emitted, want[:len(emitted)])
+        if not c["ordered"] and not su.submultiset(emitted, want):
+            return "parallel stage emitted elements that are not images of consumed inputs"
+        if completed and len(emitted) != len(want):
+            return "parallel stage completed after emitting %d of %d results" % (len(emitted), len(want))
+        return None
     if c["kind"] not in ("batch", "flow"):
         return None
     o = c["ops"][0]
@@ -395,7 +485,7 @@ def run(ctx):
             f.write(json.dumps({k: c[k] for k in ("id", "input", "ops", "fuse", "unbounded")}) + "\n")
     with open(os.path.join(ctx.work, "c45_steps_in.jsonl"), "w") as f:
         for c in scases:
-            f.write(json.dumps({k: c[k] for k in ("id", "kind", "ops", "input", "init", "refill", "script") if k in c}) + "\n")
+            f.write(json.dumps({k: c[k] for k in ("id", "kind", "ops", "input", "init", "refill", "script", "ordered", "w", "a", "b") if k in c}) + "\n")
     for fn in ("c45_out.jsonl", "c45_steps_out.jsonl"):
         p = os.path.join(ctx.work, fn)
         if os.path.exists(p):
@@ -436,6 +526,11 @@ def run(ctx):
                     continue
                 ctx.violation(BATCH_SIG, "batchFlowActor (Batch %d) driven step by step: %s" % (c["ops"][0]["n"], why),
                               {"stage": "stream.batchFlowActor", "maxSize": c["ops"][0]["n"], "script": c["script"], "observed": r})
+            elif c["kind"] == "par":
+                if n_viol < 4:
+                    n_viol += 1
+                    ctx.violation("parallelMapActor:step-oracle", "parallelMapActor (ordered=%s, %d workers) with scripted worker completion order: %s" % (c["ordered"], c["w"], why),
+                                  {"stage": "stream.parallelMapActor", "case": c, "observed": r})
             elif n_viol < 4:
                 n_viol += 1
                 ctx.violation("flowActor:step-oracle", "flowActor (%s) driven step by step: %s" % (c["ops"][0]["k"], why),
